@@ -33,8 +33,8 @@ PARTIAL = ('proved for the model, all n >= 1, numiter >= 1, every ordered field 
 ASSUMPTIONS = ['cases with a recorded loop norm in [100 n eps, 1e-6) (floating point noise decides the breakdown test) are '
                'excluded from the correspondence and counted in the class "ambiguous"']
 
-SPECS = ['generic', 'generic', 'generic', 'degenerate', 'degenerate', 'scalar', 'zero']
-STARTS = ['generic', 'generic', 'real', 'invariant', 'invariant', 'eigvec']
+SPECS = ['generic', 'generic', 'generic', 'generic', 'degenerate', 'degenerate', 'degenerate', 'scalar', 'zero']
+STARTS = ['generic', 'generic', 'generic', 'real', 'invariant', 'invariant', 'eigvec']
 
 
 def _case(rng, routine, n, m, cplx, spectrum, start):
